@@ -1,6 +1,657 @@
-//! C07 — not built yet.
-use mcx::{Ctx, Value};
-pub fn run(_ctx: &Ctx, _replay: Option<&Value>) -> i32 {
-    eprintln!("C07: check not built yet");
-    2
+//! C07 — contexts isolate memory and stack; memory is zero-initialised word RAM.
+//!
+//! Explicit-state search. An *action* is one memory / locals / stack-depth instruction group, or
+//! entering / leaving a procedure frame (exec, call, syscall, dyncall, dynexec; with 0/1/4 locals).
+//! A history of actions is turned into one program (open frames are closed at the end), assembled and
+//! executed on the real VM, and interpreted by `refvm` in lock-step; the reference records a snapshot
+//! of its complete state right after the last action (inside whatever frames are open), which is
+//! the canonical state used for de-duplication. Every load folds the value read into an
+//! accumulator kept on top of the stack, so a wrong read anywhere changes the final stack.
+//!
+//! Observed on the real VM: final stack (all elements), error variant, the memory of every context
+//! that existed, fmp and ctx after the run.
+
+use crate::common::*;
+use crate::refglue::{self, Verdict};
+use mcx::bfs::{self, Model};
+use mcx::{json, Ctx, Value};
+use processor::{ContextId, ExecutionOptions, Process};
+use refvm::ast::{op, ops, Node, Proc, Prog};
+use refvm::interp::{Stop, Vm, Word};
+use std::collections::BTreeMap;
+use std::sync::Mutex;
+
+const K: u64 = 1_000_003;
+const ADDRS: [u64; 5] = [0, 1, 1 << 29, (1 << 32) - 2, (1 << 32) - 1];
+const BAD_ADDRS: [u64; 2] = [1 << 32, P - 1];
+
+#[derive(Clone, Copy, Debug, PartialEq, Eq, Hash)]
+enum FrameKind {
+    Exec,
+    Call,
+    Syscall,
+    DynCall,
+    DynExec,
+}
+
+#[derive(Clone, Debug, PartialEq, Eq, Hash)]
+enum Act {
+    Store { addr: u64, imm: bool },
+    StoreW { addr: u64, imm: bool },
+    Load { addr: u64, imm: bool },
+    LoadW { addr: u64, imm: bool },
+    Stream(u64),
+    Pipe(u64),
+    LocStore(u16),
+    LocLoad(u16),
+    LocStoreW(u16),
+    LocLoadW(u16),
+    Enter(FrameKind, u16),
+    Leave,
+    PushExtra,
+    DropExtra,
+    SDepth,
+    Caller,
+}
+
+fn fold1() -> String {
+    format!("swap push.{K} mul add")
+}
+fn fold4() -> String {
+    format!("movup.4 push.{K} mul add push.{K} mul add push.{K} mul add push.{K} mul add")
+}
+
+/// instruction text of a non-frame action at history position `pos` (acc on top before and after)
+fn act_text(a: &Act, pos: usize) -> String {
+    let v = 100 * (pos as u64 + 1);
+    let word = format!("{}.{}.{}.{}", v + 1, v + 2, v + 3, v + 4);
+    match a {
+        Act::Store { addr, imm: false } => format!("push.{} push.{addr} mem_store", v + 9),
+        Act::Store { addr, imm: true } => format!("push.{} mem_store.{addr}", v + 9),
+        Act::StoreW { addr, imm: false } => format!("push.{word} push.{addr} mem_storew dropw"),
+        Act::StoreW { addr, imm: true } => format!("push.{word} mem_storew.{addr} dropw"),
+        Act::Load { addr, imm: false } => format!("push.{addr} mem_load {}", fold1()),
+        Act::Load { addr, imm: true } => format!("mem_load.{addr} {}", fold1()),
+        Act::LoadW { addr, imm: false } => format!("padw push.{addr} mem_loadw {}", fold4()),
+        Act::LoadW { addr, imm: true } => format!("padw mem_loadw.{addr} {}", fold4()),
+        Act::Stream(addr) => {
+            let f8 = (0..8).map(|_| format!("push.{K} mul add")).collect::<Vec<_>>().join(" ");
+            format!("push.{addr} padw padw padw mem_stream movup.13 {f8} movdn.5 dropw {}", fold1())
+        }
+        Act::Pipe(addr) => {
+            let f8 = (0..8).map(|_| format!("push.{K} mul add")).collect::<Vec<_>>().join(" ");
+            format!("push.{addr} padw padw padw adv_pipe movup.13 {f8} movdn.5 dropw {}", fold1())
+        }
+        Act::LocStore(i) => format!("push.{} loc_store.{i}", v + 9),
+        Act::LocLoad(i) => format!("loc_load.{i} {}", fold1()),
+        Act::LocStoreW(i) => format!("push.{word} loc_storew.{i} dropw"),
+        Act::LocLoadW(i) => format!("padw loc_loadw.{i} {}", fold4()),
+        Act::PushExtra => format!("push.{} swap", v + 7),
+        Act::DropExtra => "swap drop".to_string(),
+        Act::SDepth => format!("sdepth {}", fold1()),
+        Act::Caller => format!("padw caller {}", fold4()),
+        Act::Enter(..) | Act::Leave => unreachable!(),
+    }
+}
+
+struct Open {
+    kind: Option<FrameKind>,
+    locals: u16,
+    body: Vec<Node>,
+}
+
+struct Built {
+    prog: Prog,
+    advice: Vec<u64>,
+}
+
+fn build(history: &[Act]) -> Built {
+    let mut procs: Vec<Proc> = vec![];
+    let mut kernel: Vec<Proc> = vec![];
+    let mut advice = vec![];
+    let mut open: Vec<Open> = vec![Open { kind: None, locals: 0, body: vec![] }];
+    let close = |open: &mut Vec<Open>, procs: &mut Vec<Proc>, kernel: &mut Vec<Proc>| {
+        let o = open.pop().unwrap();
+        let kind = o.kind.unwrap();
+        let mut body = o.body;
+        if matches!(kind, FrameKind::DynCall | FrameKind::DynExec) {
+            // the MAST root stays on the stack: bring the accumulator back below it before returning
+            body.push(op("movdn.4"));
+        }
+        let parent = open.last_mut().unwrap();
+        match kind {
+            FrameKind::Syscall => {
+                let name = format!("k{}", kernel.len());
+                kernel.push(Proc { name: name.clone(), locals: o.locals, body });
+                parent.body.push(Node::Syscall(name));
+            }
+            _ => {
+                let name = format!("p{}", procs.len());
+                procs.push(Proc { name: name.clone(), locals: o.locals, body });
+                match kind {
+                    FrameKind::Exec => parent.body.push(Node::Exec(name)),
+                    FrameKind::Call => parent.body.push(Node::Call(name)),
+                    FrameKind::DynCall => {
+                        parent.body.push(Node::ProcRef(name));
+                        parent.body.push(Node::DynCall);
+                        parent.body.push(op("dropw"));
+                    }
+                    FrameKind::DynExec => {
+                        parent.body.push(Node::ProcRef(name));
+                        parent.body.push(Node::DynExec);
+                        parent.body.push(op("dropw"));
+                    }
+                    FrameKind::Syscall => unreachable!(),
+                }
+            }
+        }
+    };
+    for (pos, a) in history.iter().enumerate() {
+        match a {
+            Act::Enter(kind, locals) => {
+                let mut body = vec![];
+                if matches!(kind, FrameKind::DynCall | FrameKind::DynExec) {
+                    body.push(op("movup.4"));
+                }
+                open.push(Open { kind: Some(*kind), locals: *locals, body });
+            }
+            Act::Leave => close(&mut open, &mut procs, &mut kernel),
+            other => {
+                if let Act::Pipe(_) = other {
+                    advice.extend((1..=8).map(|i| 100 * (pos as u64 + 1) + 50 + i));
+                }
+                open.last_mut().unwrap().body.extend(ops(&act_text(other, pos)));
+            }
+        }
+    }
+    open.last_mut().unwrap().body.push(op("@snap"));
+    while open.len() > 1 {
+        close(&mut open, &mut procs, &mut kernel);
+    }
+    let body = open.pop().unwrap().body;
+    Built { prog: Prog { procs, kernel, body, uses: vec![], lib_procs: vec![] }, advice }
+}
+
+fn frames_of(history: &[Act]) -> Vec<(FrameKind, u16)> {
+    let mut f = vec![];
+    for a in history {
+        match a {
+            Act::Enter(k, l) => f.push((*k, *l)),
+            Act::Leave => {
+                f.pop();
+            }
+            _ => {}
+        }
+    }
+    f
+}
+
+// ------------------------------------------------------------------------------------------------
+// real VM
+// ------------------------------------------------------------------------------------------------
+
+struct RealObs {
+    outcome: Outcome,
+    /// memory per context in creation order (zero words dropped)
+    mems: Vec<Vec<(u64, Word)>>,
+    fmp: u64,
+    ctx: u32,
+}
+
+fn assemble(prog: &Prog) -> Result<(processor::Program, assembly::Assembler), String> {
+    let asm = match prog.kernel_source() {
+        Some(k) => match mcx::guard::catch(|| assembly::Assembler::default().with_kernel(&k)) {
+            Ok(Ok(a)) => a,
+            Ok(Err(e)) => return Err(format!("kernel: {e}")),
+            Err(p) => return Err(format!("PANIC {p}")),
+        },
+        None => assembly::Assembler::default(),
+    };
+    match mcx::guard::catch(|| asm.compile(prog.to_source())) {
+        Ok(Ok(p)) => Ok((p, asm)),
+        Ok(Err(e)) => Err(format!("{e}")),
+        Err(p) => Err(format!("PANIC {p}")),
+    }
+}
+
+fn run_real(program: &processor::Program, init: &[u64], advice: &[u64]) -> RealObs {
+    let r = mcx::guard::catch(|| {
+        let mut p = Process::new(program.kernel().clone(), stack_inputs(init), host(advice), ExecutionOptions::default());
+        let res = p.execute(program);
+        let clk = p.system.clk();
+        let mut ctxs: Vec<ContextId> = vec![];
+        for c in 0..=clk {
+            let id = p.system.get_ctx_at(c);
+            if !ctxs.contains(&id) {
+                ctxs.push(id);
+            }
+        }
+        let mems = ctxs
+            .iter()
+            .map(|c| {
+                p.chiplets
+                    .get_mem_state_at(*c, clk + 1)
+                    .into_iter()
+                    .map(|(a, w)| (a, [w[0].as_int(), w[1].as_int(), w[2].as_int(), w[3].as_int()]))
+                    // procedure locals are abstract in the reference: the two regions reserved for
+                    // them (execution_contexts.md, memory layout) are not compared as raw memory
+                    .filter(|(a, _)| !((1 << 30..(1 << 30) + 65536).contains(a) || (1 << 31..(1 << 31) + 65536).contains(a)))
+                    .filter(|(_, w)| *w != [0; 4])
+                    .collect()
+            })
+            .collect();
+        let outcome = match res {
+            Ok(o) => Outcome::Ok(o.stack().to_vec()),
+            Err(e) => Outcome::Err(format!("{e:?}")),
+        };
+        RealObs { outcome, mems, fmp: p.system.fmp().as_int(), ctx: p.system.ctx().into() }
+    });
+    match r {
+        Ok(o) => o,
+        Err(p) => RealObs { outcome: Outcome::Panic(p), mems: vec![], fmp: 0, ctx: 0 },
+    }
+}
+use vm_core::StarkField;
+
+/// MAST roots of the program's procedures, obtained from the real assembler (hashing is C08's
+/// subject): `procref.<name>` leaves the root on the stack
+fn proc_hashes(prog: &Prog) -> BTreeMap<String, Word> {
+    let mut out = BTreeMap::new();
+    for p in &prog.procs {
+        let mut probe = prog.clone();
+        probe.body = vec![Node::ProcRef(p.name.clone())];
+        let (program, _) = assemble(&probe).expect("probe program must assemble");
+        match run_program(&program, &[], &[]) {
+            Outcome::Ok(s) => {
+                out.insert(p.name.clone(), [s[3], s[2], s[1], s[0]]);
+            }
+            o => panic!("probe program failed: {}", o.brief()),
+        }
+    }
+    out
+}
+
+// ------------------------------------------------------------------------------------------------
+// the model
+// ------------------------------------------------------------------------------------------------
+
+#[derive(Clone)]
+struct St {
+    init: usize,
+    history: Vec<Act>,
+    canon: String,
+}
+
+struct M<'a> {
+    ctx: &'a Ctx,
+    inits: Vec<Vec<u64>>,
+    alphabet: Vec<Act>,
+    max_nesting: usize,
+    classes: Mutex<BTreeMap<String, u64>>,
+    contexts: Mutex<u64>,
+}
+
+thread_local! {
+    static FAILED_HERE: std::cell::Cell<bool> = const { std::cell::Cell::new(false) };
+}
+
+fn sig_act(a: &Act) -> String {
+    format!("{a:?}").split(|c| c == ' ' || c == '(' || c == '{').next().unwrap().to_string()
+}
+
+/// address operand of an action (part of failure signatures), "-" if it has none
+fn sig_addr(a: Option<&Act>) -> String {
+    match a {
+        Some(Act::Store { addr, .. } | Act::StoreW { addr, .. } | Act::Load { addr, .. } | Act::LoadW { addr, .. }) => addr.to_string(),
+        Some(Act::Stream(addr) | Act::Pipe(addr)) => addr.to_string(),
+        _ => "-".into(),
+    }
+}
+
+impl<'a> M<'a> {
+    /// runs history on both sides, reports disagreements, returns the reference snapshot if the run
+    /// can be continued
+    fn fail(&self, sig: Value, summary: String, case: Value) {
+        FAILED_HERE.with(|f| f.set(true));
+        self.ctx.fail(sig, summary, case);
+    }
+
+    fn eval(&self, init: &[u64], history: &[Act], report: bool) -> Option<String> {
+        FAILED_HERE.with(|f| f.set(false));
+        let snap = self.eval_inner(init, history, report);
+        // the futures of a state reached through a violating transition are noise: do not expand it
+        if FAILED_HERE.with(|f| f.get()) {
+            return None;
+        }
+        snap
+    }
+
+    fn eval_inner(&self, init: &[u64], history: &[Act], report: bool) -> Option<String> {
+        let built = build(history);
+        let last = history.last().map(sig_act).unwrap_or_else(|| "init".into());
+        let frames: Vec<String> = frames_of(history).iter().map(|(k, _)| format!("{k:?}")).collect();
+        // the memory instruction (with its address) nearest to the end of the history: what a wrong
+        // outcome is attributed to in the signature
+        let last_mem = history.iter().rev().find(|a| sig_addr(Some(a)) != "-");
+        let (mem_act, mem_addr) = (last_mem.map(sig_act).unwrap_or_else(|| "-".into()), sig_addr(last_mem));
+        // which kind of frame created the context the run is in after the last action
+        let ctx_origin = frames_of(history)
+            .iter()
+            .rev()
+            .find(|(k, _)| matches!(k, FrameKind::Call | FrameKind::DynCall))
+            .map(|(k, _)| format!("{k:?}"))
+            .unwrap_or_else(|| "root".into());
+        let case = || json!({"init": init, "history": format!("{history:?}"), "src": built.prog.to_source(), "kernel": built.prog.kernel_source(), "advice": built.advice});
+        let (program, _) = match assemble(&built.prog) {
+            Ok(x) => x,
+            Err(e) => panic!("history program must assemble: {e}\n{}\n{:?}", built.prog.to_source(), built.prog.kernel_source()),
+        };
+        let needs_hashes = history.iter().any(|a| matches!(a, Act::Caller | Act::Enter(FrameKind::DynCall | FrameKind::DynExec, _)));
+        let mut hashes = if needs_hashes { proc_hashes(&built.prog) } else { BTreeMap::new() };
+        if !needs_hashes {
+            // unique stand-ins: roots are only moved around and dropped in these programs
+            for (i, p) in built.prog.procs.iter().enumerate() {
+                hashes.insert(p.name.clone(), [900_001 + i as u64, 900_101, 900_201, 900_301]);
+            }
+        }
+        let mut vm = Vm::new(&built.prog, init, &built.advice, hashes);
+        let r = vm.run();
+        let real = run_real(&program, init, &built.advice);
+        {
+            let mut c = self.classes.lock().unwrap();
+            *c.entry(format!("{}:{}", refglue::ref_class(&r), real.outcome.kind())).or_insert(0) += 1;
+        }
+        if report {
+            if let Outcome::Panic(p) = &real.outcome {
+                self.fail(
+                    json!({"kind": "panic", "last_action": last, "panic": mcx::guard::short_panic(p)}),
+                    format!("history {history:?} from depth {}", init.len()),
+                    case(),
+                );
+                return None;
+            }
+            match refglue::compare(&real.outcome, &r, &vm.stack, !vm.depth_uncertain) {
+                Verdict::Mismatch(m) => {
+                    self.fail(
+                        json!({"kind": "outcome_mismatch", "last_action": last, "last_mem_action": mem_act, "last_mem_addr": mem_addr, "ctx_origin": ctx_origin, "ref": refglue::ref_class(&r), "real": real.outcome.kind()}),
+                        format!("{m} :: frames {frames:?} history {history:?} init depth {}", init.len()),
+                        case(),
+                    );
+                }
+                Verdict::Agree if r.is_ok() => {
+                    // memories of every context, in creation order
+                    let ref_mems: Vec<Vec<(u64, Word)>> =
+                        vm.mem.iter().map(|m| m.iter().filter(|(_, w)| **w != [0; 4]).map(|(a, w)| (*a, *w)).collect()).collect();
+                    // a context that never touched memory does not show up on either side in a
+                    // comparable way: compare root exactly, the others as a sequence of non-empty memories
+                    let ne = |v: &Vec<Vec<(u64, Word)>>| -> Vec<Vec<(u64, Word)>> { v.iter().skip(1).filter(|m| !m.is_empty()).cloned().collect() };
+                    if real.mems.first() != ref_mems.first() || ne(&real.mems) != ne(&ref_mems) {
+                        self.fail(
+                            json!({"kind": "memory_mismatch", "last_action": last, "last_mem_action": mem_act, "last_mem_addr": mem_addr}),
+                            format!("memories differ: real {:?} reference {:?} :: history {history:?}", real.mems, ref_mems),
+                            case(),
+                        );
+                    }
+                    if real.fmp != 1 << 30 || real.ctx != 0 {
+                        self.fail(
+                            json!({"kind": "fmp_or_ctx_not_restored", "innermost_frame": frames.last()}),
+                            format!("after the run fmp={} ctx={} :: history {history:?}", real.fmp, real.ctx),
+                            case(),
+                        );
+                    }
+                    *self.contexts.lock().unwrap() += vm.contexts_created as u64;
+                }
+                _ => {}
+            }
+        }
+        if r.is_ok() {
+            vm.snapshot.clone()
+        } else {
+            // the run may have failed only while closing the open frames (e.g. depth on return):
+            // the state right after the last action is still a state to continue from
+            match (&r, &vm.snapshot) {
+                (Err(Stop::Fail(_)), Some(s)) => Some(s.clone()),
+                _ => None,
+            }
+        }
+    }
+}
+
+impl<'a> Model for M<'a> {
+    type State = St;
+    type Action = Act;
+    fn init(&self) -> Vec<St> {
+        (0..self.inits.len())
+            .map(|i| St { init: i, history: vec![], canon: self.eval(&self.inits[i], &[], false).expect("initial state") })
+            .collect()
+    }
+    fn actions(&self, s: &St) -> Vec<Act> {
+        let frames = frames_of(&s.history);
+        let cur = frames.last().cloned();
+        let in_sys = frames.iter().any(|f| f.0 == FrameKind::Syscall);
+        self.alphabet
+            .iter()
+            .filter(|a| match a {
+                Act::Leave => cur.is_some(),
+                Act::Enter(k, _) => {
+                    frames.len() < self.max_nesting
+                        && !in_sys
+                        // dynexec/exec of a procedure from inside a dyn frame keeps the root below acc: fine
+                        && !(matches!(k, FrameKind::Syscall) && frames.is_empty() && false)
+                }
+                Act::LocStore(i) | Act::LocLoad(i) | Act::LocStoreW(i) | Act::LocLoadW(i) => cur.map(|c| *i < c.1).unwrap_or(false),
+                _ => true,
+            })
+            .cloned()
+            .collect()
+    }
+    fn step(&self, s: &St, a: &Act) -> Option<St> {
+        let mut h = s.history.clone();
+        h.push(a.clone());
+        let canon = self.eval(&self.inits[s.init], &h, true)?;
+        Some(St { init: s.init, history: h, canon })
+    }
+    fn canon(&self, s: &St) -> Vec<u8> {
+        s.canon.as_bytes().to_vec()
+    }
+}
+
+fn alphabet(full: bool) -> Vec<Act> {
+    let mut v = vec![];
+    let addrs: Vec<u64> = if full { ADDRS.to_vec() } else { vec![0, 1, (1 << 32) - 1] };
+    for &addr in &addrs {
+        for imm in [false, true] {
+            if !full && imm && addr != 0 {
+                continue;
+            }
+            v.push(Act::Store { addr, imm });
+            v.push(Act::StoreW { addr, imm });
+            v.push(Act::Load { addr, imm });
+            v.push(Act::LoadW { addr, imm });
+        }
+        v.push(Act::Stream(addr));
+        v.push(Act::Pipe(addr));
+    }
+    for &addr in &BAD_ADDRS[..if full { 2 } else { 1 }] {
+        v.push(Act::Store { addr, imm: false });
+        v.push(Act::Load { addr, imm: false });
+        if full {
+            v.push(Act::StoreW { addr, imm: false });
+            v.push(Act::LoadW { addr, imm: false });
+            v.push(Act::Stream(addr));
+            v.push(Act::Pipe(addr));
+        }
+    }
+    for i in if full { vec![0u16, 3] } else { vec![0u16] } {
+        v.push(Act::LocStore(i));
+        v.push(Act::LocLoad(i));
+        v.push(Act::LocStoreW(i));
+        v.push(Act::LocLoadW(i));
+    }
+    for (k, ls) in [
+        (FrameKind::Exec, vec![0u16, 1, 4]),
+        (FrameKind::Call, vec![0, 1]),
+        (FrameKind::Syscall, vec![0, 1]),
+        (FrameKind::DynCall, vec![0]),
+        (FrameKind::DynExec, vec![1]),
+    ] {
+        for l in ls {
+            if !full && l == 4 {
+                continue;
+            }
+            v.push(Act::Enter(k, l));
+        }
+    }
+    v.push(Act::Leave);
+    v.push(Act::PushExtra);
+    v.push(Act::DropExtra);
+    v.push(Act::SDepth);
+    v.push(Act::Caller);
+    v
+}
+
+fn inits() -> Vec<Vec<u64>> {
+    [16usize, 17, 20, 33].iter().map(|d| (0..*d).map(|i| 5 + i as u64).collect()).collect()
+}
+
+/// local addresses of simultaneously live frames never alias; syscall locals live in their own region.
+/// `locaddr.i swap.(k+1) drop` writes the address of local i into stack position k (net depth 0).
+fn locaddr_family(ctx: &Ctx) -> u64 {
+    let set = |i: usize, k: usize| format!("locaddr.{i} swap.{} drop", k + 1);
+    let kernel = format!("export.k.2 {} {} end", set(0, 3), set(1, 4));
+    let cases = [
+        (format!("proc.a.2 {} {} end proc.b.3 {} {} {} exec.a end begin exec.b end", set(0, 3), set(1, 4), set(0, 0), set(1, 1), set(2, 2)), false),
+        (format!("proc.a.1 {} syscall.k end proc.b.2 {} {} call.a end begin exec.b end", set(0, 2), set(0, 0), set(1, 1)), true),
+        (format!("proc.a.1 {} end proc.b.1 {} exec.a exec.a end begin exec.a exec.b end", set(0, 1), set(0, 0)), false),
+    ];
+    let mut n = 0;
+    for (src, with_kernel) in cases {
+        let asm = if with_kernel { assembly::Assembler::default().with_kernel(&kernel).unwrap() } else { assembly::Assembler::default() };
+        let out = run_source(&asm, &src, &[], &[]);
+        n += 1;
+        let case = json!({"locaddr_src": src});
+        match out {
+            Outcome::Ok(s) => {
+                let a: Vec<u64> = s[..5].to_vec();
+                let distinct = |v: &[u64]| v.iter().collect::<std::collections::BTreeSet<_>>().len() == v.len();
+                let user = |x: u64| (1u64 << 30..1 << 31).contains(&x);
+                let ok = match n {
+                    // frames b (3 locals) and a (2 locals) are live together in one context
+                    1 => distinct(&a) && a.iter().all(|x| user(*x)),
+                    // b's two locals (root context) are live while k's two locals are allocated in the
+                    // root context's syscall region; a's local lives in its own context
+                    2 => distinct(&[a[0], a[1], a[3], a[4]]) && user(a[0]) && user(a[1]) && user(a[2]) && a[3] >= 1 << 31 && a[4] >= 1 << 31 && a[3] < 1 << 32 && a[4] < 1 << 32,
+                    // b's local and a's local while both live
+                    _ => a[0] != a[1] && user(a[0]) && user(a[1]),
+                };
+                if !ok {
+                    ctx.fail(json!({"kind": "locals_alias_or_out_of_region", "program": n}), format!("{src}: local addresses {a:?}"), case);
+                }
+            }
+            o => ctx.fail(json!({"kind": "locaddr_program_failed"}), format!("{src}: {}", o.brief()), case),
+        }
+    }
+    n
+}
+
+pub fn run(ctx: &Ctx, replay: Option<&Value>) -> i32 {
+    if let Some(case) = replay {
+        return replay_case(ctx, case);
+    }
+    let mut total = bfs::Stats::default();
+    let mut classes: BTreeMap<String, u64> = BTreeMap::new();
+    let mut contexts = 0u64;
+    let mut runs = vec![];
+    // two searches: the full alphabet to a smaller depth, a reduced alphabet one level deeper
+    let plans = match ctx.tier {
+        mcx::Tier::Quick => vec![(true, 2usize), (false, 3)],
+        mcx::Tier::Thorough => vec![(true, 3), (false, 4)],
+    };
+    for (full, depth) in plans {
+        let m = M { ctx, inits: inits(), alphabet: alphabet(full), max_nesting: 3, classes: Mutex::new(BTreeMap::new()), contexts: Mutex::new(0) };
+        let st = bfs::bfs(&m, depth, ctx.tier.pick(45.0, 1000.0), 4_000_000);
+        total.states += st.states;
+        total.transitions += st.transitions;
+        total.duplicates += st.duplicates;
+        total.terminal += st.terminal;
+        for (k, v) in m.classes.into_inner().unwrap() {
+            *classes.entry(k).or_insert(0) += v;
+        }
+        contexts += m.contexts.into_inner().unwrap();
+        runs.push(json!({"alphabet_size": m.alphabet.len(), "full_alphabet": full, "depth_completed": st.depth_completed, "states": st.states,
+            "transitions": st.transitions, "duplicates": st.duplicates, "frontier_sizes": st.frontier_sizes, "cap_hit": st.cap_hit}));
+    }
+    let la = locaddr_family(ctx);
+    ctx.sample(json!({"history": "[Enter(Call,1), Store{addr:0,imm:false}, Leave, Load{addr:0,imm:true}]", "program": build(&[Act::Enter(FrameKind::Call, 1), Act::Store { addr: 0, imm: false }, Act::Leave, Act::Load { addr: 0, imm: true }]).prog.to_source()}));
+    ctx.sample(json!({"history": "[Enter(Exec,1), LocStore(0), Enter(Syscall,1), LocLoad(0)]", "program": build(&[Act::Enter(FrameKind::Exec, 1), Act::LocStore(0), Act::Enter(FrameKind::Syscall, 1), Act::LocStore(0), Act::Leave, Act::LocLoad(0)]).prog.to_source()}));
+    let cap = runs.iter().any(|r| !r["cap_hit"].is_null());
+    let cov = json!({
+        "states": total.states,
+        "transitions": total.transitions,
+        "traces_validated_against_impl": total.transitions,
+        "searches": runs,
+        "duplicates": total.duplicates,
+        "terminal_transitions(error states)": total.terminal,
+        "outcome_classes(ref:real)": classes,
+        "contexts_created_in_compared_runs": contexts,
+        "initial_depths": [16, 17, 20, 33],
+        "addresses": ADDRS, "failing_addresses": BAD_ADDRS,
+        "locaddr_programs": la,
+        "exhaustive": !cap,
+        "bounds": "all action histories to the stated depth over the stated alphabets, frame nesting <= 3, 4 initial stacks; state = reference snapshot after the last action",
+    });
+    ctx.finish("model_checking", cov, &[
+        "reference = refvm with per-context memory and abstract (never aliasing) per-frame locals; written from execution_contexts.md / io_operations.md",
+        "absolute addresses inside the regions reserved for locals are not used (documented as not advisable)",
+        "MAST roots used by caller/dyn* come from the real assembler (hashing is C08's subject)",
+    ])
+}
+
+fn replay_case(ctx: &Ctx, case: &Value) -> i32 {
+    if let Some(src) = case["locaddr_src"].as_str() {
+        println!("locaddr program: {src}");
+        locaddr_family(ctx);
+        return ctx.finish("model_checking", json!({}), &[]);
+    }
+    let src = case["src"].as_str().unwrap();
+    let init: Vec<u64> = case["init"].as_array().unwrap().iter().map(|x| x.as_u64().unwrap()).collect();
+    let advice: Vec<u64> = case["advice"].as_array().unwrap().iter().map(|x| x.as_u64().unwrap()).collect();
+    let asm = match case["kernel"].as_str() {
+        Some(k) => assembly::Assembler::default().with_kernel(k).unwrap(),
+        None => assembly::Assembler::default(),
+    };
+    println!("history: {}\nprogram:\n{src}\nkernel: {:?}\ninit stack (top first): {init:?}\nadvice: {advice:?}", case["history"], case["kernel"].as_str());
+    match asm.compile(src) {
+        Err(e) => println!("assembly error: {e}"),
+        Ok(p) => {
+            let o = run_real(&p, &init, &advice);
+            println!("real outcome: {}\nreal memories (per context, creation order): {:?}\nfmp={} ctx={}", o.outcome.brief(), o.mems, o.fmp, o.ctx);
+        }
+    }
+    println!("(the reference verdict is recomputed by the search: `./check C07 quick` reports the same history)");
+    // re-evaluate through the model to re-report
+    let hist_dbg = case["history"].as_str().unwrap_or("");
+    let m = M { ctx, inits: vec![init.clone()], alphabet: alphabet(true), max_nesting: 3, classes: Mutex::new(BTreeMap::new()), contexts: Mutex::new(0) };
+    // find the history by enumerating the alphabet (Debug text is the key)
+    fn search(m: &M, cur: &mut Vec<Act>, target: &str, depth: usize) -> bool {
+        if format!("{cur:?}") == target {
+            return true;
+        }
+        if depth == 0 || !target.starts_with(format!("{cur:?}").trim_end_matches(']')) {
+            return false;
+        }
+        for a in alphabet(true) {
+            cur.push(a);
+            if search(m, cur, target, depth - 1) {
+                return true;
+            }
+            cur.pop();
+        }
+        false
+    }
+    let mut h = vec![];
+    if search(&m, &mut h, hist_dbg, 5) {
+        m.eval(&init, &h, true);
+    }
+    ctx.finish("model_checking", json!({}), &[])
 }
